@@ -147,14 +147,6 @@ fn exec(out: &mut RunOutput, ops: &[(u32, StOp)], b: &mut Backend) {
                 out.log.push(format!("#{i} {op:?} -> skipped (group does not exist)"));
                 continue;
             }
-            StOp::Rollback { g, name } => {
-                if let Some((_, Some(grp), ..)) = model.snapshots.get(&(*g, *name)) {
-                    if model.groups.iter().any(|(k, x)| k != g && x.nostr_group_id == grp.nostr_group_id) {
-                        out.log.push(format!("#{i} {op:?} -> skipped (Nostr id taken by another group)"));
-                        continue;
-                    }
-                }
-            }
             _ => {}
         }
         let snapshot_op = matches!(op, StOp::Snapshot { .. } | StOp::Rollback { .. } | StOp::Release { .. } | StOp::ListSnapshots { .. } | StOp::Prune { .. });
@@ -327,7 +319,7 @@ pub fn spec() -> CheckSpec {
             Variant { name: "store-sqlite", profile: Profile { backend: BackendMix::Sqlite, ..p.clone() }, runs_quick: 600, runs_thorough: 40000, oracle: mk_nop, guarded: false, configure_gen: None, post: None, custom: Some(run) },
             Variant { name: "world-mixed", profile: Profile { backend: BackendMix::Mixed, ..wp.clone() }, runs_quick: 200, runs_thorough: 10000, oracle: mk_world, guarded: false, configure_gen: None, post: None, custom: None },
         ],
-        assumptions: vec!["snapshot of a group that does not exist and a rollback onto a Nostr id taken by another group are outside the contract", "index lookups (by Nostr id) are checked for consistency with the records, not for frame equality"],
+        assumptions: vec!["snapshot of a group that does not exist is outside the contract; a rollback onto a Nostr id that another group has taken since must be refused and change nothing", "index lookups (by Nostr id) are checked for consistency with the records, not for frame equality"],
         real: vec!["mdk-memory-storage", "mdk-sqlite-storage (bundled SQLite on tmpfs)", "mdk-storage-traits", "mdk-core (variant world-mixed)"],
         stubs: vec!["OpenMLS entity types in the storage-level runs are harness blobs implementing the storage marker traits", "wall clock", "relay/app layer in world runs"],
     }
